@@ -73,7 +73,8 @@ def main(tier_: str) -> int:
         lines: list[dict[str, Any]] = []
         for n, s in enumerate(states):
             now = to_dt(s['now']).replace(tzinfo=UTC())
-            args = {'start': start_arg(s, now), 'depth': str(s['depth'])}
+            # explicit starts are written with a UTC offset chosen by the state's index (0, +01:00, -05:30, +14:00, -12:00)
+            args = {'start': start_arg(s, now, random.Random(n)), 'depth': str(s['depth'])}
             if s['mup'] != ABSENT:
                 args['mup'] = str(s['mup'])
             opts = OptionsRepository.convert_cgi_options(args, defaults)
